@@ -660,8 +660,37 @@ def run(ctx):
                          'specs': [i for i, s in enumerate(specs)
                                    if 'boot' not in s and s.get('time') in
                                    ([0, 4, 59], [12, 0, 0])]}
+    # specifications outside what the compliance rules are documented to
+    # accept: no time of day, ill-typed fields, two moments, none
+    pay['malformed'] = (
+        [{k: v} for k, v in (('dow', 0), ('dow', 6), ('dom', 1), ('dom', 15), ('day', [2026, 3, 2]))] +
+        [{'dow': 2, 'time': None}, {'dom': 31, 'time': None}, {'boot': True, 'time': [12, 0, 0]},
+         {'boot': False, 'dow': 1, 'time': [12, 0, 0]}, {'dow': 1, 'dom': 2, 'time': [12, 0, 0]},
+         {}, {'time': [12, 0, 0]}, {'dow': 'mon', 'time': [12, 0, 0]}, {'dom': 1.5, 'time': [12, 0, 0]},
+         {'dow': 0, 'time': 'noon'}])
+    # (dom 0 / 32 and dow -1 / 7 are accepted by dawgie.schedule and rule_10 and make
+    #  _delay raise or land on another weekday; the property quantifies over dom 1..31
+    #  and the seven weekdays, so they are noted in DESIGN section 8, not checked here)
+    pay['malformed_instants'] = [[2026, 3, 2, 0, 58, 0, 0], [2024, 2, 29, 23, 59, 59, 0],
+                                 [2027, 12, 31, 12, 0, 0, 0], [2026, 11, 15, 6, 0, 0, 0]]
     out = ctx.harness('drive_delay.py', pay)
     ctx.log('driver done')
+    nmal = 0
+    for rec in out.get('malformed', []):
+        if not rec.get('schedule') or not rec.get('rule_10'):
+            continue               # refused by the API or by the gate: fine
+        nmal += 1
+        sp = rec['spec']
+        bad = sorted({d for d in rec['delay'] if d.startswith('exc')})
+        # dom 29..31 overflowing the next month is the recorded finding
+        known = set(sp) >= {'dom', 'time'} and isinstance(sp.get('dom'), int) and 29 <= sp['dom'] <= 31
+        if bad and not known:
+            ctx.violation('accepted-spec-not-computable', {'spec': '+'.join(sorted(sp)) or 'empty'},
+                          'dawgie.schedule and compliant.rule_10 accept the event specification %r but '
+                          '_delay raises %s' % (sp, bad),
+                          {'source': 'oracle', 'spec': sp, 'observed': rec,
+                           'theorem': 'C20 "for every event specification the compliance rules accept"'})
+    ctx.note('malformed_specs', {'tried': len(out.get('malformed', [])), 'accepted_by_api_and_gate': nmal})
 
     # ---- accepted specifications -------------------------------------------
     if out['rule_10'] != [True] * len(specs) or out['schedule_accepts'] != [True] * len(specs):
